@@ -43,6 +43,8 @@ def ring_cases(B, recs, rep, stats):
                   ('pow2', lambda: A ** 2, r['p2']), ('pow3', lambda: A ** 3, r['p3']),
                   ('rsub', lambda: 2.0 - A, [[2 * q[1] - q[0], q[1]] if i == 0 else [-q[0], q[1]] for i, q in enumerate(r['a'])]),
                   ('rmul', lambda: 3.0 * A, [[3 * q[0], q[1]] for q in r['a']])]
+        one = [[1, 1], [0, 1], [0, 1], [0, 1]]
+        checks += [('pow0', lambda: A ** 0, one), ('pow0.0', lambda: A ** 0.0, one), ('pow0:int64', lambda: A ** np.int64(0), one)]
         near = r['fam'] == 'near'
         # integer powers are ring operations (binary powering, BPowInt of the specification): the whole box, zero divisors included
         if 'p5' in r and all(q[1] != 0 for q in r['p5']):
